@@ -472,4 +472,11 @@ theorem convertResults_trailing_error : ∀ (init : List Val) (outs : List Ty) (
         simp only [List.cons_append] at this ⊢
         simp [convertResults, this]
 
+/-! ### nested results -/
+
+theorem convertSeq_toList (t : Ty) : ∀ (xs : Vals),
+    (convertSeq t xs).toList = xs.toList.map (convertResultNumber t)
+  | .nil => by simp [convertSeq, Vals.toList]
+  | .cons v vs => by simp [convertSeq, Vals.toList, convertSeq_toList t vs]
+
 end Ecal.Bridge
